@@ -33,7 +33,7 @@ def mkq(size, cap, op, timeout=900):
 
 
 def cases(tier):
-    sizes = (2, 3, 5, 8) if tier == "quick" else range(2, 13)
+    sizes = (2, 3, 4, 5, 6, 8, 10) if tier == "quick" else range(2, 13)
     cs = [mk(s, op, 600 if tier == "quick" else 2400) for s in sizes for op in sorted(OPS)]
     qs = ((5, 2), (6, 1), (4, 3)) if tier == "quick" else ((5, 2), (6, 1), (4, 3), (8, 2), (7, 3), (12, 2), (3, 1))
     cs += [mkq(sz, cap, op, 900 if tier == "quick" else 3000) for (sz, cap) in qs for op in (1, 2, 3)]
@@ -41,7 +41,7 @@ def cases(tier):
 
 
 META = dict(
-    bounds=dict(heap_sizes="2,3,5,8 quick; 2..12 thorough", live_strings="0..3", step="one operation from an arbitrary valid heap state"),
+    bounds=dict(heap_sizes="2,3,4,5,6,8,10 quick; 2..12 thorough", live_strings="0..3", step="one operation from an arbitrary valid heap state"),
     outside=["more than 3 live strings at once", "heap sizes above 12", "release of a string that is neither the oldest nor the "
              "newest (the queue never does that; a caller holding a popped text is responsible for it)"],
     assumptions=["strings are released oldest-first (pop / clear) or newest-first with rollback (overflow), as error.c does"],
